@@ -2,7 +2,7 @@
    the Hamming 8/4 and odd-parity encoders, bit order, the data-unit / packet / header / row encoders, ground-truth
    page schedules, the multiplexing choices and the cues a schedule denotes.  Definitions only. *)
 From Coq Require Import List ZArith NArith Bool.
-From Astisub Require Import Kit.Base Kit.Str Kit.GoMap Model.TtxRow Model.Ttx.
+From Astisub Require Import Kit.Base Kit.Str Kit.GoMap Model.TtxRow Model.Ttx Model.TtxStd.
 Import ListNotations.
 Open Scope N_scope.
 
@@ -292,7 +292,15 @@ Record sched := mkSched { s_mag : N; s_pn : Z; s_insts : list inst }.
 
 (* the character table of national option cs under the default designation: the G0 set with the option's 13
    characters substituted, as the generated tables have it *)
-Definition g_table (tr cs : N) : list str := match charset_for tr cs with Ok c => c | _ => [] end.
+(* The meaning of a character cell is read off the STANDARD's tables (Model/TtxStd.v, written by hand from ETS 300 706)
+   wherever they are complete -- every Latin designation except the Turkish sub-set -- and off the library's own table
+   (Gen/TtxTables.v) for the rest (Turkish, Cyrillic, Greek: asserted only in part; reserved designations; Arabic and Hebrew:
+   not implemented).  Proofs/TtxStdProofs.v shows that the library's tables agree with every asserted standard entry. *)
+Definition g_table (tr cs : N) : list str :=
+  match std_text_table (triplet_key tr) cs with
+  | Some t => t
+  | None => match charset_for tr cs with Ok c => c | _ => [] end
+  end.
 Definition g0_table (cs : N) : list str := g_table 0 cs.
 
 (* the lines of an instance: its rows in row order, each row's runs, rows without text dropped *)
